@@ -41,7 +41,7 @@ Proof.
   - apply sreach_init.
   - simpl. intros h t H. inversion H; subst. lia.
   - reflexivity.
-  - simpl. split; [reflexivity|]. eexists. split; [reflexivity|discriminate].
+  - simpl. reflexivity.
   - reflexivity.
   - simpl. repeat split; try discriminate; lia.
   - reflexivity.
@@ -76,8 +76,7 @@ Proof.
     { unfold ex_cops.
       split; [simpl; intros h b Hp; inversion Hp; subst; lia
              |eexists; split; [vm_compute; reflexivity|]].
-      split; [simpl; split; [reflexivity|eexists; split; [reflexivity|discriminate]]
-             |eexists; split; [vm_compute; reflexivity|]].
+      split; [simpl; reflexivity|eexists; split; [vm_compute; reflexivity|]].
       vstep. vstep. vstep. vstep. simpl. reflexivity. }
     vm_compute. repeat split; reflexivity. }
   destruct R as [w [R H]]. exists w. split; [|exact H].
